@@ -47,6 +47,20 @@ def gen(r):
             e['forms'] = [{'writtenForm': f} for f in others]
         entries.append(e)
         words.append((pos, lemma, others, f'e{i}'))
+    # planted collisions: an irregular form listed under one word that a detachment rule also reduces to the lemma of
+    # another word of the same part of speech, and a lemma that is at the same time a listed form of another word
+    families = [[('n', 'axis', ['axes']), ('n', 'axe', []), ('n', 'ax', [])], [('v', 'lie', ['lies']), ('v', 'ly', [])],
+                [('n', 'basis', ['bases']), ('n', 'base', [])], [('v', 'found', []), ('v', 'find', ['found'])],
+                [('a', 'bad', ['worse']), ('a', 'wors', [])], [('s', 'damp', []), ('s', 'dampe', ['damper'])]]
+    for fam in r.sample(families, r.randint(0, 3)):
+        for pos, lemma, others in fam:
+            i = len(entries)
+            e = {'id': f'e{i}', 'meta': None, 'lemma': {'writtenForm': lemma, 'partOfSpeech': pos},
+                 'senses': [{'id': f'e{i}-s', 'synset': f'ss-{pos}', 'meta': None}]}
+            if others:
+                e['forms'] = [{'writtenForm': f} for f in others]
+            entries.append(e)
+            words.append((pos, lemma, others, f'e{i}'))
     lex = {'id': 'mo', 'label': 'morphy', 'language': 'en', 'email': 'e', 'license': 'l', 'version': '1', 'meta': None,
            'entries': entries, 'synsets': synsets}
     return lex, words
